@@ -3,7 +3,7 @@ from mirsym.harness import Check
 from . import scen
 from .C01 import ASSUME
 
-QUICK = ['seq2', 'two_if', 'catch_act', 'catch_step']
+QUICK = ['seq2', 'two_if', 'catch_act', 'catch_step', 'par_block']
 
 
 def main(tier, seed):
@@ -14,9 +14,9 @@ def main(tier, seed):
     parts = 4 if tier == "quick" else 16
     for n in names:
         for i in range(parts):
-            jobs.append(("props.flow", "run_scenario", (n, dict(policy="fifo", k=k, oracles=("c02",), targets="acts", part=(i, parts),
+            jobs.append(("props.flow", "run_scenario", (n, dict(policy="fifo", k=k, oracles=("c02",), targets="acts", skip_running_acts=True, part=(i, parts),
                                                                  max_paths=600 if tier == "quick" else 20000, seed=seed), "C02")))
-        jobs.append(("props.flow", "run_scenario", (n, dict(policy="lifo", k=1, oracles=("c02",), targets="all", max_paths=400, seed=seed), "C02")))
+        jobs.append(("props.flow", "run_scenario", (n, dict(policy="lifo", k=1, oracles=("c02",), targets="all", skip_running_acts=True, max_paths=400, seed=seed), "C02")))
     c.run_jobs(jobs)
     return c.finish(
         rule="one path = scenario x valuation class of the symbolic inputs x (target task, symbolic action kind) per script step x schedule",
